@@ -73,6 +73,8 @@ Pts_q ==
     \* second audit: Henry instance history / explicit units keyword, T0 forwarded through the inverse
     \cup WithVia(HenryPts({"henry_H", "henry_c"}, {1, 4}, {29000, 31000}, {R(1, 1)}), "reuse")
     \cup WithVia(HenryPts({"henry_H", "henry_P"}, {2, 5}, {29000}, {R(1, 4)}), "unitskw")
+    \* the plain Henry class holding quantities, the units object given per call (both convenience methods forward it)
+    \cup WithVia(HenryPts({"henry_c", "henry_P"}, {2, 5}, {29000}, {R(1, 4)}), "plainunits")
     \cup Explicit(InvPts({30, 50}, {29300, 27315}))
     \cup WithTz(P1("water_density", {0, 398, 400, 2500, 4000, 4001, -1}), QZero)
     \cup WithTz(P1("water_density", {100, 500}), R(1, 1))
